@@ -416,6 +416,39 @@ Definition gen_main_items (tdef titems : term) (idx : nat) (first_blk : term) (g
   | _, _ => None
   end.
 
+(* the items of the helper trait: the trait's own items (a clone of the definition); in inherent
+   mode the signatures of the first block's items (gen_inherent_impl_items) *)
+Definition gen_helper_items (titems : term) (first_blk : term) : option term :=
+  match first_blk with
+  | Node _ [_; tr; _; _; Node _ items] =>
+      match opt_kid tr with
+      | Some _ => Some titems
+      | None =>
+          Some (Node (K "TraitItems" "")
+            (map (fun it =>
+                    let n := item_name (ld (tlabel it)) in
+                    if is_kind "IConst" (tlabel it) then Node (K "TIConst" n) (removelast (tkids it))
+                    else if is_kind "IType" (tlabel it) then Node (K "TIType" n) []
+                    else Node (K "TIFn" n) (removelast (tkids it))) items))
+      end
+  | _ => None
+  end.
+
+Definition gen_helper_items_render (titems : term) (blocks : list term) : option term :=
+  match search (4 * List.length blocks + 8) blocks with
+  | None => None
+  | Some gm =>
+      option_map (fun ms => Node (K "HelperItems" "") ms)
+        (omap (fun e =>
+                 match snd (snd e) with
+                 | m0 :: _ => match nth_error blocks m0 with
+                              | Some fb => gen_helper_items titems fb
+                              | None => None
+                              end
+                 | [] => None
+                 end) gm)
+  end.
+
 Definition gen_main_items_render (tdef titems : term) (blocks : list term) : option term :=
   match search (4 * List.length blocks + 8) blocks with
   | None => None
